@@ -22,6 +22,8 @@ type Env struct {
 	noInv     bool // under a binder: loads must not be named by constants
 	triggers  *[]string // candidate e-matching patterns collected under a quantifier
 	bound     map[string]bool
+	ghostOverride map[string]string // call-log ghosts bound by the caller (higher-order contracts)
+	byRef     map[string]types.Type // captured variables: the name denotes the content of the cell
 	frameArrs []string // arrays the function under this contract may write (for unchangedOutside)
 }
 
@@ -29,6 +31,14 @@ func (fc *FnCtx) selfEnv(pre, cur *State, results []Val) *Env {
 	env := &Env{fc: fc, vars: map[string]Val{}, pre: pre, cur: cur, results: results, self: true}
 	for k, v := range fc.params {
 		env.vars[k] = v
+	}
+	for _, fv := range fc.fn.FreeVars {
+		if pt, ok := fv.Type().Underlying().(*types.Pointer); ok {
+			if env.byRef == nil {
+				env.byRef = map[string]types.Type{}
+			}
+			env.byRef[fv.Name()] = pt.Elem()
+		}
 	}
 	if fc.fn.Pkg != nil {
 		env.pkg = fc.fn.Pkg.Pkg
@@ -89,6 +99,11 @@ func (fc *FnCtx) eval(env *Env, e *Expr) (Val, error) {
 		return Val{T: "nil"}, nil
 	case "ident":
 		if v, ok := env.vars[e.Name]; ok {
+			if et, isRef := env.byRef[e.Name]; isRef {
+				lv := fc.evalLoad(env, v, et, "cx_"+sanitize(e.Name))
+				lv.Typ = et
+				return lv, nil
+			}
 			return v, nil
 		}
 		if e.Name == "result" {
@@ -119,6 +134,9 @@ func (fc *FnCtx) eval(env *Env, e *Expr) (Val, error) {
 		return Val{}, fmt.Errorf("unknown identifier %q", e.Name)
 	case "ghost":
 		name := e.Name
+		if t, ok := env.ghostOverride[name]; ok {
+			return Val{T: t}, nil
+		}
 		if !strings.Contains(name, ".") {
 			return Val{T: env.cur.ghostGet(name, sInt, "0"), Typ: intT}, nil
 		}
